@@ -17,6 +17,23 @@ PROPS = {
     "C19": {"suites": {"quick": [("seq", {"profile": "C19", "count": 1000})], "thorough": [("seq", {"profile": "C19", "count": 40000})]}, "design": "6/C19"},
 }
 
+STREAM = lambda prof, q, t: {"quick": [("codec", {"profile": prof, "count": q, "tier": "quick"}), ("conn", {"profile": prof, "count": max(q // 4, 10), "tier": "quick"})],
+                             "thorough": [("codec", {"profile": prof, "count": t, "tier": "thorough"}), ("conn", {"profile": prof, "count": t // 2, "tier": "thorough"})]}
+PROPS.update({
+    "C09": {"suites": STREAM("C09", 120, 1500), "design": "6/C09", "projection": core.framing_projection()},
+    "C12": {"suites": STREAM("C12", 120, 1500), "design": "6/C12", "projection": core.framing_projection()},
+    "C13": {"suites": STREAM("C13", 120, 1500), "design": "6/C13", "projection": core.framing_projection(with_dump=True)},
+    "C18": {"suites": STREAM("C18", 120, 1500), "design": "6/C18", "projection": core.framing_projection(with_dump=True)},
+    "C10": {"suites": STREAM("C10", 120, 1500), "design": "6/C10", "projection": core.framing_projection()},
+})
+
+RULE_STREAM = ("codec/conn: pipelined request streams (standard loud and quiet commands of every opcode, unimplemented opcodes, frames with "
+               "unexpected extras/value, bodies above the item limit for any opcode, quit/quitq at any position, optionally a truncated or "
+               "invalid-header tail) are cut into consecutive reads: every single cut (or a directed sample around header and frame boundaries), "
+               "pairs of cuts, random cuts and byte-at-a-time; each segmentation is fed to the real Decoder on a caller-owned BytesMut (codec) "
+               "and to a real MemcacheTcpServer over loopback with enforced read boundaries (conn), and to the Lean model. Distinct = distinct "
+               "(frame kind, opcode) sequences of the streams.")
+
 RULE = ("seq: programs of 5-40 commands over 1-6 colliding keys generated from the protocol vocabulary (pools of keys, binary and decimal "
         "values, flags, TTLs, boundary-directed clock advances, CAS tokens learnt from the implementation's own acknowledgements); "
         "each request goes through the real decoder, handler and encoder and through the compiled Lean model; the store is dumped and "
@@ -120,8 +137,14 @@ def run_check(prop, tier, seed, replay):
             payload = {"kind": "counterexample", "property": prop, "suite": name, "seed": seed, "oracle": v["msg"], "line_in_program": v["line"] - v["start"]}
             payload.update(program_payload(run, v["start"], v["end"]))
             problems.append(("counterexample", v["msg"], payload, True))
-        for (a, b, i) in run.divergences():
-            own, why = core.owners(run, a, b, i)
+        stream_suite = name.startswith("codec") or name.startswith("conn")
+        for (a, b, i) in run.divergences(cfg.get("projection") if (stream_suite and cfg.get("projection")) else None):
+            if name.startswith("corpus") or name == "replay":
+                own, why = {prop}, f"witness replay differs at '{run.ops[i][:40]}'"
+            elif stream_suite:
+                own, why = {prop}, f"framing differs at '{run.ops[i][:40]}'"
+            else:
+                own, why = core.owners(run, a, b, i)
             if prop not in own:
                 foreign += 1
                 continue
@@ -174,7 +197,7 @@ def run_check(prop, tier, seed, replay):
 
 
 def finish(prop, tier, seed, t0, lean, n_obl, n_dis, stats, violations, known_hits, scan, samples=None, foreign=0):
-    evals = sum(s.get("programs", 0) for s in stats)
+    evals = sum(s.get("cases", s.get("programs", 0)) for s in stats)
     dn = sum(s.get("distinct_nontrivial", 0) for s in stats)
     ev = {
         "property_id": prop, "tier": tier, "seed": seed, "level": "proof",
@@ -184,7 +207,7 @@ def finish(prop, tier, seed, t0, lean, n_obl, n_dis, stats, violations, known_hi
             "trusted_base": core.TRUSTED,
             "obligation_list": [{"name": o["name"], "axioms": o["axioms"]} for o in lean["obligations"]],
             "source_scan_hits": scan,
-            "evaluations": evals, "distinct_nontrivial": dn, "rule": RULE,
+            "evaluations": evals, "distinct_nontrivial": dn, "rule": RULE_STREAM if any(s.get("suite") in ("codec", "conn") for s in stats) else RULE,
             "samples": samples or [],
             "correspondence_runs": stats,
             "lines_compared": sum(s.get("lines", 0) for s in stats),
